@@ -150,18 +150,19 @@ void check_elements(V&& v, Model const& m, T const* root, long N, Ctx& ctx, char
 }
 
 // ------------------------------------------------------------------------------------------------------------------
-// capabilities of the pinned tree (DESIGN 3.1): `const&` overloads that do not instantiate for D >= 2
+// capabilities (DESIGN 3.1): the `const&` overloads of taked/dropped/strided/reversed did not instantiate for D >= 2 on the pinned tree;
+// fixed in /repo (known_findings.txt), so they are generated by default; -DVP_CONST_x=0 switches one off again
 #ifndef VP_CONST_TAKED
-#define VP_CONST_TAKED 0
+#define VP_CONST_TAKED 1
 #endif
 #ifndef VP_CONST_DROPPED
-#define VP_CONST_DROPPED 0
+#define VP_CONST_DROPPED 1
 #endif
 #ifndef VP_CONST_STRIDED
-#define VP_CONST_STRIDED 0
+#define VP_CONST_STRIDED 1
 #endif
 #ifndef VP_CONST_REVERSED
-#define VP_CONST_REVERSED 0
+#define VP_CONST_REVERSED 1
 #endif
 
 enum OpCode { OP_INDEX, OP_SLICED, OP_STRIDED, OP_DROPPED, OP_TAKED, OP_ROTATED, OP_UNROTATED, OP_TRANSPOSED, OP_REVERSED,
